@@ -4410,7 +4410,23 @@ impl GlobalInferenceCtx<'_> {
                 // this should also set the meta type
                 let ty = match self.tys.try_naive(naive.wrap(), self.world_bodies) {
                     Ok(sig) => sig,
-                    Err(NaiveLookupErr::IsPolymorphic) => todo!(),
+                    Err(NaiveLookupErr::IsPolymorphic) => {
+                        // a function with comptime parameters is not a type
+                        self.diagnostics.push(TyDiagnostic {
+                            kind: TyDiagnosticKind::Mismatch {
+                                expected: ExpectedTy::Concrete(Ty::Type.into()),
+                                found: Ty::NaivePolymorphicFunction {
+                                    fn_loc: naive.wrap(),
+                                }
+                                .into(),
+                            },
+                            file: self.loc.file(),
+                            expr: Some(total_expr),
+                            range: name_range,
+                            help: None,
+                        });
+                        return Ok(Ty::Unknown.into());
+                    }
                     Err(NaiveLookupErr::NotFound) => {
                         // println!(" - not found");
                         assert!(!self.world_bodies.has_polymorphic_body(naive.wrap()));
